@@ -272,6 +272,27 @@ np.arange(12).reshape(3, 4)[::-1, 0]
 np.arange(12).reshape(3, 4)[np.arange(3), np.arange(3)]
 np.arange(12).reshape(3, 4)[:, -1]
 np.arange(12).reshape(3, 4)[None].shape
+np.tri(3, 4, dtype=bool)
+np.tri(3)
+np.tri(3, 2, 1, dtype=int)
+np.nonzero(np.tri(3, 4, dtype=bool))[0]
+np.nonzero(np.tri(3, 4, dtype=bool))[1]
+np.nonzero(np.tri(0, 4, dtype=bool))[0]
+np.nonzero(np.array([0, 2, 0, 3]))[0]
+np.flatnonzero(np.array([[0, 1], [1, 0]]))
+np.argwhere(np.array([[0, 1], [1, 0]]))
+np.arange(5) < 3
+np.arange(5) < np.arange(5)[::-1]
+np.arange(6).reshape(2, 3) >= 2
+np.arange(5)[np.arange(5) < 3]
+np.arange(10)[np.arange(10) % 2 == 0]
+np.arange(12).reshape(4, 3)[np.array([True, False, True, False])]
+np.arange(12).reshape(4, 3)[np.stack((np.arange(2) < 1, np.ones(2, dtype=bool)), axis=-1).ravel()]
+np.ones(3, dtype=bool)
+np.zeros(2, dtype=bool)
+np.linspace(0, 1, 3)[np.array([2, 0, 0])].size
+np.nonzero(np.tri(3, 3, dtype=bool))[0].size
+(np.arange(4) * (np.arange(4) + 1) // 2 + np.arange(4)[::-1])
 '''.strip().splitlines()
 
 
